@@ -3,7 +3,7 @@ from common import COMMON_TB
 CFG = {
     "technique": "Lean 4 theorems about the lease operations of the wtxmgr model on an arbitrary store + differential run of the real wtxmgr.Store (bdb file, build-tagged clock setter) against the model, with an independent Go ledger oracle",
     "level_text": "The lease state machine (lease / other id refused / same id extends / free iff released or stored expiry reached, boundary included / unknown refused / sweep removes exactly the expired / confirmed spend clears / excluded from UnspentOutputs / Balance subtracts once) is proved in Lean for every store, id, instant and duration of the model; the model is tied to wtxmgr by an op-by-op differential run over generated histories (leases interleaved with receipts, spends, confirmations, reorgs, restarts; the instants e-1ns, e, e+1ns, e+-1s of every lease are visited).",
-    "level_note": "Theorems are stated on the STORED expiry (whole seconds). The expiry handed to the caller has nanoseconds; C12_counterexample_truncated_expiry + the Go oracle key lease.expiry-truncated-to-seconds show the caller-visible early release (finding F8). Exclusion from Balance as a closed formula is part of C01 (partial there). The clock is constant during one call (Go reads it several times).",
+    "level_note": "Since /repo 4c73b71 LockOutput rounds the expiry up to a whole second and returns what it stores: C12_expiry_exact, C12_expiry_bounds, C12_leased_until_returned_expiry (former finding F8; reverting the fix yields VIOLATION key=lock-result with replay). The lease events refine the Ledger's (C12_lease/_release/_sweep/_clock_refines_partial, C12_leased_refines_partial; partial: chain events are not covered by the refinement). Exclusion from Balance holds after every chain-consistent history (C12_excluded_balance, via C01's invariant). The clock is constant during one call (Go reads it several times).",
     "lean_props": ["BtcwVerif.Props.C12"],
     "engines": ["txstore"],
     "trusted_base": COMMON_TB + [
